@@ -844,6 +844,15 @@ pub fn walk(
                 t.fork = Some(VARIANT_INTERFERE);
                 return Err(WalkFail { fail: Fail::new(&f.clause, format!("(observed again right after a type-permuted twin of the position was queried and has_move was called with foreign boards) {}", f.detail)), trace: t, inconclusive: false });
             }
+            // a plain clone must behave like the original
+            if let Ok(cl) = guard(|| eng.clone()) {
+                let v4 = View::new(&cl, &mo, false);
+                if let Err(f) = obs.on_state(&v4, st) {
+                    let mut t = trace.clone();
+                    t.fork = Some(VARIANT_INTERFERE);
+                    return Err(WalkFail { fail: Fail::new(&f.clause, format!("(on a clone of this state) {}", f.detail)), trace: t, inconclusive: false });
+                }
+            }
             let fresh = fork_with_history(&eng, &mo, &[]).map(|x| x.0);
             if let Some(fr) = fresh.as_ref() {
                 let _ = guard(|| {
@@ -996,6 +1005,10 @@ pub fn walk(
             interfere_with(&eng, &mo, which);
             let v2 = View::new(&eng, &mo, false);
             obs.on_state(&v2, st).map_err(|f| fail_with(f, &trace))?;
+        }
+        if let Ok(cl) = guard(|| eng.clone()) {
+            let v4 = View::new(&cl, &mo, false);
+            obs.on_state(&v4, st).map_err(|f| fail_with(f, &trace))?;
         }
         if let Some((fr, _)) = fork_with_history(&eng, &mo, &[]) {
             let _ = guard(|| {
